@@ -1,0 +1,72 @@
+//go:build verif
+
+// Contracts for s2.Rect, the latitude-longitude rectangle (property C19): latitude is an r1.Interval,
+// longitude an s1.Interval; the algebra is sound w.r.t. membership of (lat,lng) probe points.
+// Exact IEEE-754 semantics. Comment-only.
+
+package s2
+
+//@ import "math"
+//@ import "github.com/golang/geo/s1"
+
+//@ property C19
+
+// the two package-level constants the rectangle code reads (never assigned after initialisation)
+//@ spec func vcRectConsts() bool = validRectLatRange.Lo == -math.Pi/2 && validRectLatRange.Hi == math.Pi/2 && validRectLngRange.Lo == -math.Pi && validRectLngRange.Hi == math.Pi
+//@ spec func vcLL(lat, lng float64) bool = -math.Pi/2 <= lat && lat <= math.Pi/2 && -math.Pi <= lng && lng <= math.Pi
+//@ spec func vcInRect(r Rect, lat, lng float64) bool = r.Lat.Contains(lat) && r.Lng.Contains(lng)
+
+//@ func (r Rect) Union(other Rect) Rect
+//@   fp
+//@   timeout 120
+//@   ghost lat float64, lng float64
+//@   requires r.IsValid() && other.IsValid() && vcLL(lat, lng)
+//@   ensures [sound-lat] vcInRect(r, lat, lng) || vcInRect(other, lat, lng) ==> result.Lat.Contains(lat)
+//@   ensures [sound-lng] vcInRect(r, lat, lng) || vcInRect(other, lat, lng) ==> result.Lng.Contains(lng)
+//@   ensures [valid] result.IsValid()
+
+//@ func (r Rect) Intersection(other Rect) Rect
+//@   fp
+//@   timeout 120
+//@   ghost lat float64, lng float64
+//@   requires r.IsValid() && other.IsValid() && vcLL(lat, lng)
+//@   ensures [sound] vcInRect(r, lat, lng) && vcInRect(other, lat, lng) ==> vcInRect(result, lat, lng)
+//@   ensures [no-extra] vcInRect(result, lat, lng) ==> vcInRect(r, lat, lng) || vcInRect(other, lat, lng)
+//@   ensures [valid] result.IsValid()
+
+//@ func (r Rect) Contains(other Rect) bool
+//@   fp
+//@   timeout 120
+//@   ghost lat float64, lng float64
+//@   requires r.IsValid() && other.IsValid() && vcLL(lat, lng)
+//@   ensures [sound] result && vcInRect(other, lat, lng) ==> vcInRect(r, lat, lng)
+
+//@ func (r Rect) Intersects(other Rect) bool
+//@   fp
+//@   timeout 120
+//@   ghost lat float64, lng float64
+//@   requires r.IsValid() && other.IsValid() && vcLL(lat, lng)
+//@   ensures [complete] vcInRect(r, lat, lng) && vcInRect(other, lat, lng) ==> result
+
+//@ func (r Rect) ContainsLatLng(ll LatLng) bool
+//@   fp
+//@   timeout 120
+//@   requires r.IsValid() && vcLL(float64(ll.Lat), float64(ll.Lng))
+//@   ensures [def] result == vcInRect(r, float64(ll.Lat), float64(ll.Lng))
+
+//@ func (r Rect) AddPoint(ll LatLng) Rect
+//@   fp
+//@   timeout 120
+//@   ghost lat float64, lng float64
+//@   requires r.IsValid() && vcLL(lat, lng) && vcLL(float64(ll.Lat), float64(ll.Lng))
+//@   ensures [added] vcInRect(result, float64(ll.Lat), float64(ll.Lng))
+//@   ensures [kept] vcInRect(r, lat, lng) ==> vcInRect(result, lat, lng)
+//@   ensures [valid] result.IsValid()
+
+//@ func (r Rect) PolarClosure() Rect
+//@   fp
+//@   timeout 120
+//@   ghost lat float64, lng float64
+//@   requires r.IsValid() && vcLL(lat, lng)
+//@   ensures [kept] vcInRect(r, lat, lng) ==> vcInRect(result, lat, lng)
+//@   ensures [valid] result.IsValid()
